@@ -442,6 +442,13 @@ func (s *Service) handlePausedAndStoppedRequests(w http.ResponseWriter, r *http.
 	}
 
 	action, message := s.pauseController.Wait()
+	if action != PauseWaitActionProceed && s.targetOptions.IsHealthCheckRequest(r) {
+		// The service was paused or stopped between the check above and the
+		// wait, so this is still a health check of a paused or stopped service.
+		w.WriteHeader(http.StatusOK)
+		return true
+	}
+
 	switch action {
 	case PauseWaitActionStopped:
 		templateArguments := struct{ Message string }{message}
